@@ -422,7 +422,7 @@ class C20(Prop):
                     for style in (["uni", "ties", "zeros", "wide", "kahan", "cancel"] if rep == 0 else [rng.choice(["uni", "ties", "wide", "kahan", "cancel", "inf"])]):
                         if quick and n > 300 and rng.random() < 0.6: continue
                         v = self.rand_vec(rng, n, style, T)
-                        sel = rng.sample(["Sum", "Max", "Min", "ArgMax", "ArgMin", "SortIncreasing", "SortDecreasing", "Reverse", "MatMax", "Scale", "Increment"], 4)
+                        sel = rng.sample(["Sum", "Max", "Min", "ArgMax", "ArgMin", "SortIncreasing", "SortDecreasing", "Reverse", "ReverseInPlace", "MatMax", "Scale", "Increment"], 4)
                         for o in sel:
                             if o in ("Scale", "Increment"): ops.append("vec op=%s%s x=%s s=%s" % (T, o, hx(T, v), sb(T, rng.choice([2.0, -0.5, 0.0, 1e10, 3.3]))))
                             elif o == "MatMax":
@@ -440,7 +440,7 @@ class C20(Prop):
                     p = self.rand_vec(rng, n, "prob", T)
                     ops.append("vec op=%sNorm x=%s" % (T, hx(T, p)))
                     ops.append("vec op=%sEntropy x=%s" % (T, hx(T, p)))
-                    ops.append("vec op=%sCDF x=%s" % (T, hx(T, p)))
+                    ops.append("vec op=%sCDF%s x=%s" % (T, rng.choice(["", "InPlace"]), hx(T, p)))
                     s = sum(p)
                     if s > 0:
                         pn = [x / s for x in p]
@@ -498,6 +498,7 @@ class C20(Prop):
                     ops.append("vec op=%sScale x=%s k=%d" % (T, hv, c)); ops.append("vec op=%sIncrement x=%s k=%d" % (T, hv, c))
                     ops.append("vec op=%sAdd x=%s y=%s" % (T, hv, hw)); ops.append("vec op=%sAddScaled x=%s y=%s k=%d" % (T, hv, hw, c))
                     if T == "L": ops.append("vec op=LReverse x=%s" % hv)
+                    ops.append("vec op=%sReverseInPlace x=%s" % (T, hv))
                     if T == "I":
                         ops.append("vec op=IMatScale m=1 x=%s k=%d" % (hv, c))
                         ops.append("vec op=IReverse x=%s" % hv)
@@ -548,7 +549,7 @@ class C20(Prop):
                 o = ([v * c for v in x] if name in ("Scale", "MatScale") else [v + c for v in x] if name == "Increment"
                      else [a + b for a, b in zip(x, y)] if name == "Add" else [a + b * c for a, b in zip(x, y)])
                 exp = b"".join(int(v).to_bytes(k, "little", signed=True) for v in o).hex() or "-"
-            elif name in ("SortIncreasing", "SortDecreasing", "Reverse"):
+            elif name in ("SortIncreasing", "SortDecreasing", "Reverse", "ReverseInPlace"):
                 o = sorted(x) if name == "SortIncreasing" else sorted(x, reverse=True) if name == "SortDecreasing" else x[::-1]
                 exp = b"".join(int(v).to_bytes(k, "little", signed=True) for v in o).hex() or "-"
             else: return None
